@@ -18,8 +18,8 @@ type IndexLoop struct {
 	// constant (e.g. `for p := idx; p < end; p++`); nil otherwise.
 	StartVal ssa.Value
 	Step     int64
-	Bound ssa.Value // right operand of the `<` test
-	If    *ssa.If   // header test; Succs[0] is the body
+	Bound    ssa.Value // right operand of the `<` test
+	If       *ssa.If   // header test; Succs[0] is the body
 	// Descending: `for i := n - 1; i >= 0; i--`. Step is -1, StartVal the first
 	// index (n - 1), Bound the exclusive upper limit n when the first index has
 	// that form (nil otherwise); the loop ends below index 0.
